@@ -1044,6 +1044,13 @@ func (w *valWorld) admitJobUpdate(oldIn, newIn *execution.Job) string {
 func vpick[T any](rng *rand.Rand, xs ...T) T { return xs[rng.Intn(len(xs))] }
 
 func genCronField(rng *rand.Rand, lo, hi int, names []string, kind string) string {
+	// the library lower-cases directives: `h` is a hash token just like `H`
+	hcase := func() string {
+		if rng.Intn(5) == 0 {
+			return "h"
+		}
+		return "H"
+	}
 	val := func() string {
 		if len(names) > 0 && rng.Intn(6) == 0 {
 			return vpick(rng, names...)
@@ -1077,13 +1084,13 @@ func genCronField(rng *rand.Rand, lo, hi int, names []string, kind string) strin
 		case r < 72:
 			return rng2() + "/" + step()
 		case r < 80:
-			return "H"
+			return hcase()
 		case r < 86:
-			return "H/" + step()
+			return hcase() + "/" + step()
 		case r < 90:
-			return "H(" + rng2() + ")"
+			return hcase() + "(" + rng2() + ")"
 		case r < 94:
-			return "H(" + rng2() + ")/" + step()
+			return hcase() + "(" + rng2() + ")/" + step()
 		case r < 95:
 			return "/" + step()
 		case r < 96:
@@ -1121,7 +1128,7 @@ func genCronExpr(rng *rand.Rand) string {
 		return vpick(rng, "@yearly", "@annually", "@monthly", "@weekly", "@daily", "@hourly", "@reboot", "@every 5m")
 	case r < 40:
 		return vpick(rng, "", " ", "* * * *", "a b c d e", "*/0 * * * *", "60 * * * *", "* 24 * * *", "* * 0 * *", "* * * 13 *",
-			"* * * * 8", "* * * * * 1969", "0 0 H/5 * *", "0 0 1 H/3 *", "H(18-20)/5 * * * *", "H(5-4) * * * *", "H(59-0) * * * *",
+			"* * * * 8", "* * * * * 1969", "0 0 H/5 * *", "0 3 h/5 * *", "0 0 1 H/3 *", "H(18-20)/5 * * * *", "H(5-4) * * * *", "H(59-0) * * * *",
 			"0 0 ? * *", "0 0 * * ?", "0 0 ? * ?", "\t*  *   * * *\n", "* * * * * * * *", "H H H H H H H", "0 0 31 2 *")
 	}
 	nf := vpick(rng, 5, 5, 5, 6, 7, 7, 4, 8)
